@@ -1,4 +1,4 @@
-HOOK_COMMITS = ["91ffc11", "afaa7f8", "1038992"]
+HOOK_COMMITS = ["91ffc11", "afaa7f8", "1038992", "591b094"]
 NOT_APPLICABLE = {}
 ENTRIES = {
     "C07": {
